@@ -23,11 +23,11 @@ Names(kind) ==
     [] kind = "expected" -> {"default", "value", "error", "copy_construct", "move_construct", "copy_assign", "move_assign",
                              "unwrap", "map", "map_error"}
     [] kind = "variant" -> {"default", "value", "copy_construct", "move_construct", "copy_assign", "move_assign", "emplace"}
-    [] kind = "manual_box" -> {"value", "destruct"}
+    [] kind = "manual_box" -> {"value", "value_with", "destruct"}     \* initialize(args) / construct_with(f) / destruct()
 
 \* documented preconditions
 Legal(kind, op, st) ==
-  CASE kind = "manual_box" /\ op.name = "value" -> st[op.d][1] = 0        \* initialize() on an uninitialised box
+  CASE kind = "manual_box" /\ op.name \in {"value", "value_with"} -> st[op.d][1] = 0        \* initialize() on an uninitialised box
     [] kind = "manual_box" /\ op.name = "destruct" -> st[op.d][1] = 1
     [] kind = "expected" /\ op.name = "error" -> op.x # 0                 \* E{} means "no error"
     [] kind = "expected" /\ op.name = "unwrap" -> st[op.d][1] = 1           \* unwrap() of an error is a contract violation
@@ -41,7 +41,7 @@ Eff(kind, op, st) ==
       o == Other(op.d) IN
   CASE op.name = "default" -> [st EXCEPT ![d] = DefaultOf(kind)]
     \* (value: from an rvalue T; value_copy: from a const T lvalue; value_conv: from a value of another, convertible type)
-    [] op.name \in {"value", "value_copy", "value_conv", "emplace", "assign_value"} -> [st EXCEPT ![d] = <<Alt(kind, op), op.x>>]
+    [] op.name \in {"value", "value_with", "value_copy", "value_conv", "emplace", "assign_value"} -> [st EXCEPT ![d] = <<Alt(kind, op), op.x>>]
     [] op.name \in {"null", "assign_null", "destruct"} -> [st EXCEPT ![d] = Empty]
     [] op.name = "error" -> [st EXCEPT ![d] = <<2, op.x>>]
     \* copying and moving leave the source as it is (a moved-from holder stays engaged)
